@@ -208,6 +208,13 @@ class VPairs:
         self.length, self.first, self.second = length, first, second
 
 
+class VSeqSet:
+    """a python set of tuples of ints: characteristic array over abstract literal lists"""
+
+    def __init__(self, arr):
+        self.arr = arr
+
+
 class VParities:
     """immutable list of pairs (list of variables, int): a clause sequence and a parallel int array"""
 
@@ -827,6 +834,8 @@ class Engine:
             return VCounted(v.count, v.last)
         if isinstance(v, VSink):
             return VSink(v.trace)
+        if isinstance(v, VSeqSet):
+            return VSeqSet(v.arr)
         if isinstance(v, VArr):
             return VArr(v.length, v.arr)
         if isinstance(v, VArr2):
@@ -941,6 +950,12 @@ class Engine:
         if isinstance(s, ast.Assign):
             v = self.eval(s.value, env)
             for t in s.targets:
+                if isinstance(t, ast.Name) and self.frames[-1]['contract'].get('locals', {}).get(t.id) == 'mclist' \
+                        and isinstance(v, VTuple) and not v.items:
+                    v = VMList(specs.cnil)                         # declared: a growing list of clauses
+                if isinstance(t, ast.Name) and self.frames[-1]['contract'].get('locals', {}).get(t.id) == 'seqset' \
+                        and isinstance(v, VSet2):
+                    v = VSeqSet(z3.K(specs.ISeq, z3.BoolVal(False)))   # declared: a set of tuples of ints
                 if isinstance(t, ast.Name) and self.frames[-1]['contract'].get('locals', {}).get(t.id) == 'texttable':
                     v = VTextTable()                               # declared: a table of unmodelled texts
                 if isinstance(t, ast.Name) and isinstance(v, VArr) and getattr(v, 'blank', False) \
@@ -1189,6 +1204,9 @@ class Engine:
             v.trace = self.fresh(name + '_trace', specs.CSeq)
             return v
         if isinstance(v, VTextTable):
+            return v
+        if isinstance(v, VSeqSet):
+            v.arr = self.fresh(name, specs.SeqSet)
             return v
         if isinstance(v, VCounted):
             n = self.fresh(name + '_count')
@@ -1822,6 +1840,9 @@ class Engine:
         if isinstance(a, (VSet2, VFun2)) and type(a) is type(b) and isinstance(op, (ast.Eq, ast.NotEq)):
             r = a.arr == b.arr
             return r if isinstance(op, ast.Eq) else z3.Not(r)
+        if isinstance(a, VSeqSet) and isinstance(b, VSeqSet) and isinstance(op, (ast.Eq, ast.NotEq)):
+            r = a.arr == b.arr
+            return r if isinstance(op, ast.Eq) else z3.Not(r)
         if isinstance(a, VTerms) and isinstance(b, VTerms) and isinstance(op, (ast.Eq, ast.NotEq)):
             r = a.term == b.term
             return r if isinstance(op, ast.Eq) else z3.Not(r)
@@ -1854,6 +1875,10 @@ class Engine:
         raise Unsupported(what)
 
     def contains(self, container, x, node):
+        if isinstance(container, VSeqSet):
+            if isinstance(x, VSeq) and x.sortname == 'ISeq':
+                return z3.Select(container.arr, x.term)
+            raise Unsupported('membership of a non-tuple in a set of tuples')
         if isinstance(container, VTuple):
             return zor(*[self.compare(ast.Eq(), x, y, node) for y in container.items])
         if isinstance(container, VRange):
@@ -1884,7 +1909,7 @@ class Engine:
                 r = o.fields[e.attr[:-3]]
                 return toz(r.lo) if e.attr.endswith('_lo') else toz(r.hi)
             return ('method', o, e.attr)
-        if isinstance(o, (VTuple, VMList, VArr, VSeq, VOpaque, VCounted, VArr2, VRow, VSet2, VStr, VStrs, VFmt, VSink)) or isinstance(o, str):
+        if isinstance(o, (VTuple, VMList, VArr, VSeq, VOpaque, VCounted, VArr2, VRow, VSet2, VStr, VStrs, VFmt, VSink, VSeqSet)) or isinstance(o, str):
             return ('method', o, e.attr)
         if isinstance(o, tuple) and o[0] == 'global':
             return ('global', o[1] + '.' + e.attr)
@@ -2176,10 +2201,24 @@ class Engine:
             e2[g.target.id] = el
             saved = len(self.pc)
             self.pc.append(z3.And(t >= 0, t < specs.ilen(it.term)))
+            self.demonic = []
             try:
                 body = self.eval(e.elt, e2)
+                facts = list(self.pc[saved + 1:])
             finally:
                 del self.pc[saved:]
+                dem, self.demonic = self.demonic, None
+            if dem and is_z3(body) and z3.is_int(body):
+                # the element calls a nondeterministic library function (random.choice): one outcome PER position; the result is
+                # some list c with  c[t] == body(seq[t], outcome_t)  for every position t
+                subs = [(c, z3.Select(self.fresh('dem_arr', z3.ArraySort(z3.IntSort(), c.sort())), t)) for c in dem]
+                r = VSeq(self.fresh('comp', specs.ISeq))
+                tc = z3.Int('t!dc')
+                fs = [z3.substitute(f, *subs) for f in facts] + [specs.iget(r.term, t) == z3.substitute(body, *subs)]
+                self.pc.append(specs.ilen(r.term) == specs.ilen(it.term))
+                self.pc.append(z3.ForAll([tc], z3.Implies(z3.And(tc >= 0, tc < specs.ilen(it.term)),
+                                                          z3.substitute(z3.And(*fs), (t, tc))), patterns=[specs.iget(r.term, tc)]))
+                return r
             if is_z3(body) and z3.is_int(body):
                 d1 = z3.simplify(body - el)
                 d2 = z3.simplify(body + el)
@@ -2744,6 +2783,11 @@ class Engine:
             return VRowText(o, args[0].clause)
         if isinstance(o, str) and meth == 'join' and len(args) == 1 and isinstance(args[0], VFmt) and args[0].split and not o.startswith('<'):
             return VFmt(args[0].template, args[0].args, joined=(o, ''))
+        if isinstance(o, VSeqSet):
+            if meth == 'add' and len(args) == 1 and isinstance(args[0], VSeq) and args[0].sortname == 'ISeq':
+                o.arr = z3.Store(o.arr, args[0].term, z3.BoolVal(True))
+                return None
+            raise Unsupported('method {} of a set of tuples'.format(meth))
         if isinstance(o, VSink):
             if meth == 'write' and len(args) == 1:
                 o.trace = specs.csnoc(o.trace, self.write_event(args[0], node))
@@ -2990,6 +3034,9 @@ def sf_evrowt(eng, node, prefix, sep, suffix, clause):
 
 
 SPEC_FUNCS = {
+    'psat': _wrap(specs.psat), 'valid1': _wrap(specs.valid1), 'cvalid': _wrap(specs.cvalid), 'cdistinct': _wrap(specs.cdistinct),
+    'cmem': _wrap(specs.cmem), 'csubsel': _wrap(specs.csubsel),
+    'setof': lambda eng, node, L: VSeqSet(specs.cset(_term(L))),
     'pxs': lambda eng, node, v: VSeq(v.xs), 'pbs': lambda eng, node, v: VArr(specs.clen(v.xs), v.bs),
     'evrow': sf_evrowt, 'rowapp': _wrap(specs.rowapp), 'rowsfrom': _wrap(specs.rowsfrom),
     'nonnone': sf_nonnone,
@@ -3059,6 +3106,10 @@ Engine.ev_Name = _ev_name_patch(Engine.ev_Name)
 
 # builtins ---------------------------------------------------------------------------
 def b_len(eng, node, v):
+    if isinstance(v, VOpaque):
+        n = eng.fresh('opaque_len')           # a container the contract does not look into: some length
+        eng.pc.append(n >= 0)
+        return n
     if isinstance(v, VTuple):
         return len(v.items)
     if isinstance(v, (VSeq, VMList)):
@@ -3479,6 +3530,17 @@ def lib_random_shuffle(eng, node, lst):
 
 
 def lib_sorted(eng, node, seq, key=None):
+    if isinstance(seq, VSeq) and seq.sortname == 'ISeq' and key is None and getattr(seq, 'distinct_in', None) is not None:
+        # sorted copy of k pairwise distinct values of a range: strictly increasing, same bounds, same length
+        lo, hi = seq.distinct_in
+        r = VSeq(eng.fresh('sorted', specs.ISeq))
+        i, j = z3.Int('i!so'), z3.Int('j!so')
+        n = specs.ilen(seq.term)
+        eng.pc.append(specs.ilen(r.term) == n)
+        eng.pc.append(z3.ForAll([i], z3.Implies(z3.And(0 <= i, i < n), z3.And(lo <= specs.iget(r.term, i), specs.iget(r.term, i) < hi)),
+                                patterns=[specs.iget(r.term, i)]))
+        eng.pc.append(z3.ForAll([i, j], z3.Implies(z3.And(0 <= i, i < j, j < n), specs.iget(r.term, i) < specs.iget(r.term, j))))
+        return r
     if isinstance(seq, VPairs) and getattr(seq, 'enumerate_of', None) is not None and isinstance(key, VClosure) \
             and isinstance(key.node, ast.Lambda) and ast.unparse(key.node.body) == '{}[1]'.format(key.node.args.args[0].arg):
         # sorted(enumerate(p), key=lambda x: x[1])  for p a permutation of 0..n-1: the i-th element is (p^-1(i), i)
@@ -3540,6 +3602,29 @@ def lib_random_randint(eng, node, a, b):
 
 def lib_random_sample(eng, node, pop, k):
     """demonic random.sample(population, k): k elements at pairwise distinct positions; ValueError if k > len"""
+    if isinstance(pop, VRange) and pop.step == 1:
+        # k pairwise distinct values of the range, in some order
+        lo, hi, kk = toz(pop.lo), toz(pop.hi), toz(k)
+        if eng.branch(z3.Or(kk > zmax(hi - lo, z3.IntVal(0)), kk < 0)):
+            eng.oblige('hazard', 'random.sample: 0 <= k <= len(population)', False, node.lineno)
+            raise PyExc('ValueError', node.lineno)
+        r = VSeq(eng.fresh('sample', specs.ISeq))
+        i, j = z3.Int('i!sm'), z3.Int('j!sm')
+        eng.pc.append(specs.ilen(r.term) == kk)
+        eng.pc.append(z3.ForAll([i], z3.Implies(z3.And(0 <= i, i < kk), z3.And(lo <= specs.iget(r.term, i), specs.iget(r.term, i) < hi)),
+                                patterns=[specs.iget(r.term, i)]))
+        eng.pc.append(z3.ForAll([i, j], z3.Implies(z3.And(0 <= i, i < j, j < kk), specs.iget(r.term, i) != specs.iget(r.term, j))))
+        r.distinct_in = (lo, hi)
+        return r
+    if isinstance(pop, (VSeq, VMList)) and pop.term.sort() == specs.CSeq:
+        # m clauses of the list, at pairwise distinct positions
+        F, mm = pop.term, toz(k)
+        if eng.branch(z3.Or(mm > specs.clen(F), mm < 0)):
+            eng.oblige('hazard', 'random.sample: 0 <= k <= len(population)', False, node.lineno)
+            raise PyExc('ValueError', node.lineno)
+        r = VSeq(eng.fresh('sample', specs.CSeq))
+        eng.pc.append(z3.And(specs.clen(r.term) == mm, specs.csubsel(r.term, F)))
+        return r
     if not isinstance(pop, VPairs):
         raise Unsupported('random.sample on {!r}'.format(pop))
     n, kk = toz(pop.length), toz(k)
